@@ -69,6 +69,18 @@ func (r *Report) Class(name string) {
 	r.classes[name] = 1
 }
 
+// Classes returns the classes recorded for this case (sorted).
+func (r *Report) Classes() []string {
+	r.mu.Lock()
+	defer r.mu.Unlock()
+	out := make([]string, 0, len(r.classes))
+	for c := range r.classes {
+		out = append(out, c)
+	}
+	sort.Strings(out)
+	return out
+}
+
 // Has reports whether a class has been recorded for this case.
 func (r *Report) Has(name string) bool {
 	r.mu.Lock()
